@@ -1,5 +1,6 @@
 import XalanModel.C03.Status
 import XalanModel.C03.Buffers
+import XalanModel.C03.Uri
 import Driver.Util
 /-
 xm_c03: model side of the C03 correspondence.
@@ -66,6 +67,30 @@ def step (_ : Unit) : List String → Unit × String
         | .memErr => ((), s!"mem {sprintfBytes x (printfPrecisions.headD 0) false}")
         | .outOfFuel => ((), "fuel")
     | none => ((), "bad")
+  | ["uri", rel, base] =>
+    -- bytes as 2 hex digits each ("-" = empty)
+    let dec (h : String) : Option (List Nat) :=
+      if h = "-" then some [] else
+      let cs := h.toList
+      if cs.length % 2 ≠ 0 then none else
+      let rec go (fuel : Nat) (cs : List Char) (acc : List Nat) : Option (List Nat) :=
+        match fuel, cs with
+        | _, [] => some acc.reverse
+        | 0, _ => none
+        | f + 1, a :: b :: rest => (parseHex (String.ofList [a, b])).bind fun n => go f rest (n :: acc)
+        | _, _ => none
+      go (cs.length + 1) cs []
+    let enc (l : List Nat) : String :=
+      if l.isEmpty then "-" else String.join (l.map fun n => (hex4 n).drop 2 |>.toString)
+    match dec rel, dec base with
+    | some r, some b =>
+      -- the index form of parse (exactly sized buffers, bounded tests) must agree with the regular-expression form
+      if parseBuf true r r.length ≠ .ok (parseUri r) ∨ parseBuf true b b.length ≠ .ok (parseUri b) then ((), "parse-forms-differ") else
+      match resolveStrings true true false r b with
+      | .ok u => ((), enc u)
+      | .memErr => ((), "mem")
+      | .outOfFuel => ((), "fuel")
+    | _, _ => ((), "bad")
   | ["guard", si, len] =>
     match si.toNat?, len.toNat? with
     | some si, some len =>
